@@ -1,6 +1,8 @@
 package main
 
 import (
+	"go.opentelemetry.io/collector/pdata/plog"
+	"strconv"
 	"fmt"
 	"context"
 	"encoding/json"
@@ -30,6 +32,32 @@ type MemRec struct {
 	Jcanon bool            `json:"jcanon"`
 	Jmal   bool            `json:"jmal"`
 	Lmal   bool            `json:"lmal"`
+	// what else a record carries: scope and resource attributes (each overrides the layers before it), trace / span id,
+	// severity number, and attributes of its own whose values are not strings (V is the value's text)
+	Scope [][2][]int  `json:"scope,omitempty"`
+	Res   [][2][]int  `json:"res,omitempty"`
+	Trace []int       `json:"trace,omitempty"`
+	Span  []int       `json:"span,omitempty"`
+	Sev   int         `json:"sev,omitempty"`
+	Typed []typedAttr `json:"typed,omitempty"`
+}
+
+type typedAttr struct {
+	K Ints   `json:"k"`
+	T string `json:"t"` // int | dbl | bool
+	V Ints   `json:"v"`
+}
+
+var sevNames = []string{"", "Trace", "Trace2", "Trace3", "Trace4", "Debug", "Debug2", "Debug3", "Debug4", "Info", "Info2", "Info3", "Info4",
+	"Warn", "Warn2", "Warn3", "Warn4", "Error", "Error2", "Error3", "Error4", "Fatal", "Fatal2", "Fatal3", "Fatal4"}
+
+func nonZero(b []int) bool {
+	for _, x := range b {
+		if x != 0 {
+			return true
+		}
+	}
+	return false
 }
 
 // CapsIn is a storage capability configuration.
@@ -65,10 +93,28 @@ func (m *MemStore) Capabilities() (c logqlengine.QuerierCapabilities) {
 
 func recLabels(r MemRec) map[string]string {
 	l := map[string]string{}
+	if nonZero(r.Trace) {
+		l["trace_id"] = fmt.Sprintf("%x", []byte(S(r.Trace)))
+	}
+	if nonZero(r.Span) {
+		l["span_id"] = fmt.Sprintf("%x", []byte(S(r.Span)))
+	}
+	if r.Sev >= 1 && r.Sev <= 24 {
+		l["level"] = sevNames[r.Sev]
+	}
 	if len(r.Line) > 0 {
 		l["msg"] = S(r.Line)
 	}
 	for _, kv := range r.Attrs {
+		l[otelstorage.KeyToLabel(S(kv[0]))] = S(kv[1])
+	}
+	for _, ta := range r.Typed {
+		l[otelstorage.KeyToLabel(S(ta.K))] = S(ta.V)
+	}
+	for _, kv := range r.Scope {
+		l[otelstorage.KeyToLabel(S(kv[0]))] = S(kv[1])
+	}
+	for _, kv := range r.Res {
 		l[otelstorage.KeyToLabel(S(kv[0]))] = S(kv[1])
 	}
 	return l
@@ -131,16 +177,49 @@ next:
 		}
 		// records with the same attributes share ONE map, as the Docker storage shares a container's resource
 		// attributes between all of its records: a stage that writes through a label value corrupts the next record
-		key := fmt.Sprint(r.Attrs)
+		key := fmt.Sprint(r.Attrs, r.Typed)
 		attrs, ok := shared[key]
 		if !ok {
 			attrs = pcommon.NewMap()
 			for _, kv := range r.Attrs {
 				attrs.PutStr(S(kv[0]), S(kv[1]))
 			}
+			for _, ta := range r.Typed {
+				switch ta.T {
+				case "int":
+					n, _ := strconv.ParseInt(S(ta.V), 10, 64)
+					attrs.PutInt(S(ta.K), n)
+				case "dbl":
+					f, _ := strconv.ParseFloat(S(ta.V), 64)
+					attrs.PutDouble(S(ta.K), f)
+				case "bool":
+					attrs.PutBool(S(ta.K), S(ta.V) == "true")
+				}
+			}
 			shared[key] = attrs
 		}
-		out = append(out, logstorage.Record{Timestamp: ts, ObservedTimestamp: ts, Body: line, Attrs: otelstorage.Attrs(attrs)})
+		rec := logstorage.Record{Timestamp: ts, ObservedTimestamp: ts, Body: line, Attrs: otelstorage.Attrs(attrs)}
+		mapOf := func(kvs [][2][]int) otelstorage.Attrs {
+			m := pcommon.NewMap()
+			for _, kv := range kvs {
+				m.PutStr(S(kv[0]), S(kv[1]))
+			}
+			return otelstorage.Attrs(m)
+		}
+		if len(r.Scope) > 0 {
+			rec.ScopeAttrs = mapOf(r.Scope)
+		}
+		if len(r.Res) > 0 {
+			rec.ResourceAttrs = mapOf(r.Res)
+		}
+		if len(r.Trace) == 16 {
+			copy(rec.TraceID[:], S(r.Trace))
+		}
+		if len(r.Span) == 8 {
+			copy(rec.SpanID[:], S(r.Span))
+		}
+		rec.SeverityNumber = plog.SeverityNumber(r.Sev)
+		out = append(out, rec)
 		ids = append(ids, r.ID)
 	}
 	if m.t != nil {
